@@ -879,7 +879,8 @@ impl Stdfs {
     /// ```
     pub fn exists<T: AsRef<Path>>(path: T) -> bool {
         match Stdfs::abs(path) {
-            Ok(abs) => fs::metadata(abs).is_ok(),
+            // A link exists whether or not its target does, same as the memfs backend
+            Ok(abs) => fs::symlink_metadata(abs).is_ok(),
             Err(_) => false,
         }
     }
